@@ -139,3 +139,115 @@ theorem quote_last (p : Pen σ α) (d : Int) (s : σ) (pre post : List (Entry σ
   simp [h1, he.1, he.2]
 
 end PPen
+
+namespace PPen
+variable {σ α : Type} [DecidableEq σ]
+
+/-! ### loading order: symbol by symbol or date by date -/
+
+omit [DecidableEq σ] in
+/-- dates already listed stay where they are; entries whose date is listed add nothing -/
+theorem addAll_dates_of_known : ∀ (es : List (Entry σ α)) (p : Pen σ α), (∀ e ∈ es, e.date ∈ p.dates) →
+    (p.addAll es).dates = p.dates
+  | [], _, _ => rfl
+  | e :: es, p, h => by
+    have he : e.date ∈ p.dates := h e (by simp)
+    have hc : p.dates.contains e.date = true := by simpa using he
+    have h1 : (p.addQuote e.bid e.ask e.date e.sym).dates = p.dates := by
+      unfold Pen.addQuote; simp only [hc, if_true]
+    rw [Pen.addAll, addAll_dates_of_known es _ (by rw [h1]; exact fun f hf => h f (by simp [hf])), h1]
+
+omit [DecidableEq σ] in
+/-- entries with pairwise distinct new dates are listed in the order they arrive -/
+theorem addAll_dates_of_fresh : ∀ (es : List (Entry σ α)) (p : Pen σ α), (∀ e ∈ es, e.date ∉ p.dates) →
+    (es.map (·.date)).Nodup → (p.addAll es).dates = p.dates ++ es.map (·.date)
+  | [], p, _, _ => by simp [Pen.addAll]
+  | e :: es, p, h, hn => by
+    have he : e.date ∉ p.dates := h e (by simp)
+    have hc : p.dates.contains e.date = false := by simpa using he
+    have h1 : (p.addQuote e.bid e.ask e.date e.sym).dates = p.dates ++ [e.date] := by
+      unfold Pen.addQuote; simp only [hc, Bool.false_eq_true, if_false]
+    rw [List.map_cons, List.nodup_cons] at hn
+    rw [Pen.addAll, addAll_dates_of_fresh es _ ?_ hn.2, h1]
+    · simp
+    · intro f hf
+      rw [h1]
+      simp only [List.mem_append, List.mem_singleton, not_or]
+      refine ⟨h f (by simp [hf]), ?_⟩
+      intro hfe
+      exact hn.1 (by rw [← hfe]; exact List.mem_map.mpr ⟨f, hf, rfl⟩)
+
+omit [DecidableEq σ] in
+/-- **one symbol at a time**: if the first block of entries (the first symbol's series) has pairwise distinct dates
+    and every later entry's date occurs in it, the date list is exactly the first block's dates, in its order — the
+    same list as loading date by date gives -/
+theorem dates_symbol_by_symbol (first rest : List (Entry σ α)) (hn : (first.map (·.date)).Nodup)
+    (hr : ∀ e ∈ rest, e.date ∈ first.map (·.date)) :
+    (({} : Pen σ α).addAll (first ++ rest)).dates = first.map (·.date) := by
+  have happ : ∀ (a b : List (Entry σ α)) (p : Pen σ α), p.addAll (a ++ b) = (p.addAll a).addAll b := by
+    intro a
+    induction a with
+    | nil => intro b p; rfl
+    | cons x xs ih => intro b p; simp [Pen.addAll, ih]
+  rw [happ]
+  have h1 : (({} : Pen σ α).addAll first).dates = first.map (·.date) := by
+    have := addAll_dates_of_fresh first ({} : Pen σ α) (by intro e _; simp) hn
+    simpa using this
+  rw [addAll_dates_of_known rest _ (by rw [h1]; exact hr), h1]
+
+/-- when every (date, symbol) pair is quoted at most once, the stored quotes do not depend on the order of
+    the `add_quote` calls at all -/
+theorem quote_perm (es es' : List (Entry σ α)) (hp : es.Perm es')
+    (hu : es.Pairwise (fun e f => ¬ (e.date = f.date ∧ e.sym = f.sym))) (d : Int) (s : σ) :
+    (({} : Pen σ α).addAll es).quote d s = (({} : Pen σ α).addAll es').quote d s := by
+  -- with at most one match, `find?` returns it wherever it stands
+  have key : ∀ (l : List (Entry σ α)), l.Pairwise (fun e f => ¬ (e.date = f.date ∧ e.sym = f.sym)) →
+      ∀ e, (l.find? (fun e => e.date == d && e.sym == s) = some e ↔ e ∈ l ∧ e.date = d ∧ e.sym = s) := by
+    intro l
+    induction l with
+    | nil => intro _ e; simp
+    | cons x xs ih =>
+      intro hpw e
+      rw [List.pairwise_cons] at hpw
+      by_cases hx : x.date = d ∧ x.sym = s
+      · have hm : (x.date == d && x.sym == s) = true := by simp [hx.1, hx.2]
+        simp only [List.find?_cons, hm, Option.some.injEq, List.mem_cons]
+        constructor
+        · intro h; subst h; exact ⟨Or.inl rfl, hx⟩
+        · rintro ⟨h | h, hd, hs⟩
+          · exact h.symm
+          · exact absurd ⟨hx.1.trans hd.symm, hx.2.trans hs.symm⟩ (hpw.1 e h)
+      · have hm : (x.date == d && x.sym == s) = false := by
+          simp only [Bool.and_eq_false_iff, beq_eq_false_iff_ne, ne_eq]
+          by_cases h1 : x.date = d
+          · exact Or.inr (fun h2 => hx ⟨h1, h2⟩)
+          · exact Or.inl h1
+        simp only [List.find?_cons, hm, List.mem_cons]
+        rw [ih hpw.2 e]
+        constructor
+        · rintro ⟨h, hd, hs⟩; exact ⟨Or.inr h, hd, hs⟩
+        · rintro ⟨h | h, hd, hs⟩
+          · subst h; exact absurd ⟨hd, hs⟩ hx
+          · exact ⟨h, hd, hs⟩
+  have hsym : ∀ {a b : Entry σ α}, ¬ (a.date = b.date ∧ a.sym = b.sym) → ¬ (b.date = a.date ∧ b.sym = a.sym) :=
+    fun h h' => h ⟨h'.1.symm, h'.2.symm⟩
+  have hu' : es'.Pairwise (fun e f => ¬ (e.date = f.date ∧ e.sym = f.sym)) := hp.pairwise hu (fun h => hsym h)
+  have hr : es.reverse.Pairwise (fun e f => ¬ (e.date = f.date ∧ e.sym = f.sym)) :=
+    List.pairwise_reverse.mpr (hu.imp (fun h => hsym h))
+  have hr' : es'.reverse.Pairwise (fun e f => ¬ (e.date = f.date ∧ e.sym = f.sym)) :=
+    List.pairwise_reverse.mpr (hu'.imp (fun h => hsym h))
+  unfold Pen.quote
+  rw [addAll_entries, addAll_entries]
+  simp only [List.nil_append]
+  rcases h : es.reverse.find? (fun e => e.date == d && e.sym == s) with _ | e
+  · rcases h' : es'.reverse.find? (fun e => e.date == d && e.sym == s) with _ | e'
+    · rw [h, h']
+    · have := (key _ hr' e').mp h'
+      have hin : e' ∈ es.reverse := by simpa using hp.mem_iff.mpr (by simpa using this.1)
+      have := (key _ hr e').mpr ⟨hin, this.2⟩
+      rw [h] at this; cases this
+  · have := (key _ hr e).mp h
+    have hin : e ∈ es'.reverse := by simpa using hp.mem_iff.mp (by simpa using this.1)
+    rw [h, (key _ hr' e).mpr ⟨hin, this.2⟩]
+
+end PPen
